@@ -446,6 +446,91 @@ impl Family for Edge5 {
     }
 }
 
+/// LIKE3: three like white pieces (N, B, R or Q) standing on squares from which that piece kind
+/// attacks one target square on an empty board, the white king, the black king and one black
+/// slider (b, r, q) anywhere — the slider pins some of them, blocks others, gives check. For SAN
+/// disambiguation with more than two candidates of which some cannot legally move.
+pub struct Like3 {
+    pub kind: u8,
+}
+fn empty_board_sources(kind: u8, target: u8) -> Vec<u8> {
+    let mut p = Pos::empty();
+    let mut v = Vec::new();
+    for s in 0..64u8 {
+        if s == target {
+            continue;
+        }
+        p.board[s as usize] = pc(WHITE, kind);
+        if p.piece_attacks(s, target) {
+            v.push(s);
+        }
+        p.board[s as usize] = EMPTY;
+    }
+    v
+}
+impl Like3 {
+    /// upper bound of source triples per target: C(8,3), C(13,3), C(14,3), C(27,3)
+    fn triples(&self) -> u64 {
+        match self.kind {
+            KNIGHT => 56,
+            BISHOP => 286,
+            ROOK => 364,
+            _ => 2925,
+        }
+    }
+}
+impl Family for Like3 {
+    fn name(&self) -> String {
+        format!("LIKE3:{}", kind_letter_lower(self.kind).to_ascii_uppercase())
+    }
+    fn len(&self) -> u64 {
+        // target x source triple index x wk x bk x slider kind x slider square
+        64 * self.triples() * 64 * 64 * 3 * 64
+    }
+    fn decode(&self, mut i: u64) -> Option<Pos> {
+        let target = (i % 64) as u8;
+        i /= 64;
+        let triple = (i % self.triples()) as usize;
+        i /= self.triples();
+        let wk = (i % 64) as u8;
+        i /= 64;
+        let bk = (i % 64) as u8;
+        i /= 64;
+        let skind = [BISHOP, ROOK, QUEEN][(i % 3) as usize];
+        i /= 3;
+        let ssq = (i % 64) as u8;
+        let src = empty_board_sources(self.kind, target);
+        let n = src.len();
+        // decode the triple index into a < b < c
+        let mut t = triple;
+        let mut found = None;
+        'outer: for a in 0..n {
+            for b in (a + 1)..n {
+                let cnt = n - b - 1;
+                if t < cnt {
+                    found = Some((src[a], src[b], src[b + 1 + t]));
+                    break 'outer;
+                }
+                t -= cnt;
+            }
+        }
+        let (a, b, c) = found?;
+        let mut p = Pos::empty();
+        for (sq, piece) in [(a, pc(WHITE, self.kind)), (b, pc(WHITE, self.kind)), (c, pc(WHITE, self.kind)), (wk, pc(WHITE, KING)), (bk, pc(BLACK, KING)), (ssq, pc(BLACK, skind))] {
+            if p.board[sq as usize] != EMPTY {
+                return None;
+            }
+            p.board[sq as usize] = piece;
+        }
+        p.stm = WHITE;
+        if p.is_legal_position() {
+            Some(p)
+        } else {
+            None
+        }
+    }
+}
+
 /// wraps a family and yields the colour-flipped twin of every member
 pub struct Flipped<'a>(pub &'a dyn Family);
 impl<'a> Family for Flipped<'a> {
